@@ -336,6 +336,24 @@ def c05j(F, R):
                     written = True
             n += 1
             key = f"{short(q.split('::{closure')[0]) if 'error_ranges' in q else short(q.rsplit('::', 1)[0].split(' as ')[0].lstrip('<'))}|{name}"
+            # a worklist that is only refilled inside the loop that empties it never starts
+            pops = [u for u in uses if pm.get(id(u), {}).get("k") == "MethodCall" and pm[id(u)]["name"] in ("pop", "pop_front", "pop_back") and pm[id(u)]["recv"] is u]
+            if pops and written:
+                lp = pops[0]
+                while lp is not None and lp.get("k") != "Loop":
+                    lp = pm.get(id(lp))
+                if lp is not None:
+                    inside = {id(y) for y in walk(lp, pats=False)}
+                    seeded = False
+                    for u in uses:
+                        par = pm.get(id(u))
+                        if id(u) in inside or par is None:
+                            continue
+                        if par.get("k") == "MethodCall" and par["recv"] is u and par["name"] in ("push", "push_back", "push_front", "append", "extend", "insert"):
+                            seeded = True
+                    if not seeded:
+                        R.bad(key + "|seed", f"the worklist `{name}` is emptied by a loop and only refilled inside that loop: nothing puts the first element in, the search never starts, and what it would find is never reported", loc(st))
+                        continue
             if written:
                 R.ok(key, detail=f"`{name}` starts empty and is filled before it is read", where=loc(st))
             else:
